@@ -76,13 +76,6 @@ theorem exec_evalReturning_star_null (m : Nat) (env : Env) (b : String) (trigs :
   refine ⟨(txT b trigs nr).cols.map (fun _ => Value.null), ?_⟩
   simp [protoReturning, exec_bind, evalReturning, Table.withRows, txT, Table.colNames, txCols]
 
-theorem updQ_nil (g : List Value → Bool) (ts : List Ver) : updQ g (fun _ => ([] : List PendingTrig)) ts = [] := by
-  induction ts with
-  | nil => rfl
-  | cons r rest ih =>
-    show (if g r.vals then [] else []) ++ updQ _ _ rest = []
-    rw [ih]; simp
-
 theorem updAcc_star (g : List Value → Bool) (fR : TxR → TxR) : ∀ (ts : List Ver) (a : DmlAcc),
     (updAcc g (starAcc fR) a ts).retRows = a.retRows ++ (ts.filter (fun r => g r.vals)).map (fun r => txF fR r.vals) ∧
     (updAcc g (starAcc fR) a ts).affected = a.affected + (ts.filter (fun r => g r.vals)).length ∧
